@@ -8,6 +8,26 @@
 # rule: how cases are generated and what makes one non-trivial / distinct (copied into evidence)
 
 PROPS = {
+    "C15": {
+        "level": "exploration",
+        "rule": "rapid generates sessions of 5..25 real CLI commands (bug new / comment / title / status / label / rm / select / "
+                "deselect / show / list with quotes, dashes, unicode and multi-line arguments, push, pull) and library actions "
+                "(attachments through RepoCache.NewWithFiles; a peer clone that edits and pushes so that the host has to merge), with "
+                "a planned diverged-merge + attachment segment in 2/3 of the cases, on a host repository prepared with branches, "
+                "lightweight and annotated tags, notes and remote-tracking refs, a branch / detached / unborn HEAD, optionally staged, "
+                "unstaged and untracked changes, and optionally rich unrelated configuration (aliases, a remote with pushurl and a "
+                "multi-valued fetch, url.insteadOf, include.path, a section named 'bugs', a second [core] section and comments). "
+                "Oracle (frame condition, before vs after the session and again after gc): for-each-ref outside the four git-bug "
+                "namespaces, HEAD, hash of .git/index, status --porcelain=v2, hashes and modes of work-tree files, the multiset of "
+                "local configuration entries outside git-bug.*, the top-level entries of .git, the stash; validity: git fsck --strict "
+                "reports no error, git clone --mirror, git gc --prune=now and a stock git push of the git-bug refs to a fresh bare "
+                "repository succeed, the bugs read back there and every attached blob travelled. "
+                "Non-trivial: the session has a push or pull and an attachment or a merge. Distinct: step-kind sequence.",
+        "assumptions": ["configuration is compared as a multiset of entries (go-git rewrites the file: merged sections, dropped comments)",
+                        "FETCH_HEAD / ORIG_HEAD and *.lock files in .git are git's own bookkeeping"],
+        "needs_cli": True,
+        "tests": [{"name": "TestC15HostRepo", "quick": 8, "shards_quick": 4, "thorough": 50, "shards": 12, "timeout_quick": 900}],
+    },
     "C16": {
         "level": "fault_enumeration",
         "rule": "rapid generates tracker histories for a simulated GitLab REST API (internal/gitlabsim: issues, notes and their edits, "
@@ -347,6 +367,14 @@ PROPS = {
 
 # Text for MANIFEST.json, per claimed property.
 MANIFEST_TEXT = {
+    "C15": {
+        "technique": "property-based testing (rapid) of CLI/library sessions on a prepared host repository; frame-condition oracle computed with stock git, validity oracle = git fsck --strict / clone / gc / push",
+        "level_text": "Generated sessions of real commands are run on a host repository with foreign refs, a dirty tree and foreign "
+                      "configuration; everything outside git-bug's namespaces is fingerprinted before and after with stock git, and "
+                      "stock git must accept, transport and garbage-collect everything git-bug wrote.",
+        "design_ref": "DESIGN.md §4 C15",
+        "level_note": "Trusted: stock git 2.39 as the judge of object validity and of the host repository's state.",
+    },
     "C16": {
         "technique": "property-based testing (rapid) of tracker histories against a simulated GitLab server with exhaustive HTTP-fault enumeration per request of a round; differential oracles (never-failed run, import from scratch)",
         "level_text": "Generated tracker histories are imported in rounds; idempotence and incrementality are checked differentially, and every "
@@ -491,4 +519,4 @@ MANIFEST_TEXT = {
 
 # Properties not (yet) claimed, with the reason. Entries whose id is in PROPS are ignored.
 _PENDING = "check not built yet in this session (planned, see DESIGN.md §4); not claimed until its harness exists and is silent on the unchanged tree"
-NOT_APPLICABLE = {("C%02d" % i): _PENDING for i in range(1, 21)}
+NOT_APPLICABLE = {}
